@@ -4,6 +4,8 @@
 mod c15;
 mod c16;
 mod c20;
+#[cfg(feature = "shuttled")]
+mod c20conc;
 mod coord;
 mod eval;
 mod gen;
@@ -110,7 +112,19 @@ fn real_main() -> i32 {
         Some("check") if args.len() >= 3 => {
             let tier = Tier::parse(&args[2]);
             if let Some(p) = hist_prop(&args[1]) {
-                return histcheck::check(p, tier, |_| {});
+                #[cfg(feature = "shuttled")]
+                if p.id == "C20" {
+                    let post = |seed: u64, tier: Tier| -> Result<histcheck::PostPass, String> {
+                        let r = c20conc::pass(seed, tier)?;
+                        Ok(histcheck::PostPass { exit: r.exit, violations: r.violations, name: "concurrent_pass", evidence: r.evidence })
+                    };
+                    return histcheck::check(p, tier, Some(&post));
+                }
+                #[cfg(not(feature = "shuttled"))]
+                if p.id == "C20" {
+                    println!("note: concurrent pass of C20 skipped (the rewritten copy of the library did not build)");
+                }
+                return histcheck::check(p, tier, None);
             }
             if args[1] == "C16" {
                 return c16::check(tier);
@@ -127,6 +141,19 @@ fn real_main() -> i32 {
                 let br = histcheck::run_block(p, seed, first, count, tier);
                 println!("{}", br.to_json());
                 return 0;
+            }
+            #[cfg(feature = "shuttled")]
+            if args[1] == c20conc::ENGINE {
+                return match c20conc::run_block(seed, first, count, tier) {
+                    Ok(br) => {
+                        println!("{}", br.to_json());
+                        0
+                    }
+                    Err(e) => {
+                        eprintln!("harness error: {e}");
+                        2
+                    }
+                };
             }
             if args[1] == "C16" {
                 return match c16::run_block(seed, first, count, tier) {
@@ -152,10 +179,17 @@ fn real_main() -> i32 {
                     return 2;
                 }
             };
-            let prop = serde_json::from_str::<serde_json::Value>(&text)
-                .ok()
-                .and_then(|v| v["property"].as_str().map(String::from))
-                .unwrap_or_default();
+            let parsed = serde_json::from_str::<serde_json::Value>(&text).ok();
+            let prop = parsed.as_ref().and_then(|v| v["property"].as_str().map(String::from)).unwrap_or_default();
+            if parsed.as_ref().map_or(false, |v| v["kind"].as_str() == Some("concurrent")) {
+                #[cfg(feature = "shuttled")]
+                return c20conc::replay_file(path, expect);
+                #[cfg(not(feature = "shuttled"))]
+                {
+                    eprintln!("harness error: this replay file needs the concurrent pass, which is not built (the rewritten copy of the library does not compile)");
+                    return 2;
+                }
+            }
             if let Some(p) = hist_prop(&prop) {
                 return histcheck::replay_file(p, path, expect);
             }
